@@ -209,8 +209,15 @@ def r14_2(ck):
             'TypeError'
         ck.require(ok, 'R14.2', f, r, 'failures are TypeErrors',
                    'the fallback raises %s' % A.unparse(r.exc), r)
+    # the candidates are collected in a local list; "none found" is the
+    # raise under `not <that list>`
+    lists = {nm for nm, ds in local_defs(f.node).items()
+             if any(d.kind == 'mutate' or isinstance(d.value, ast.List)
+                    for d in ds)}
     none_found = [r for r in raises_
-                  if any(a[0] == 'falsy' and 'compatible' in a[1]
+                  if any((a[0] == 'falsy' and a[1] in lists) or (
+                      a[0] == '==' and set(a[1:]) & {
+                          'len(%s)' % x for x in lists} and '0' in a[1:])
                          for a in cfg.guards(cfg.node(r)))]
     ck.require(bool(none_found), 'R14.2', f, f.node.name,
                'an object with no compatible serializer raises TypeError',
